@@ -202,7 +202,10 @@ def matrix_program(m, idx, variant="unit"):
         for x in need:
             add_show_fn(p, x, done)
         body = concat(parts)
-        arms.append((gp, body if variant == "string" else Call("string_println", body)))
+        if variant == "quiet" and not irrefutable(row):
+            arms.append((gp, Unit))          # only the catch-all rows do something observable
+        else:
+            arms.append((gp, body if variant == "string" else Call("string_println", body)))
     # values: matching ones first (in TLC's order), then the ones no row matches
     cases = sorted(m["cases"], key=lambda c: c["res"]["arm"] == 0)
     exp = []
@@ -235,6 +238,9 @@ def matrix_program(m, idx, variant="unit"):
         for x in need:
             add_show_fn(p, x, done)
         p.fn("f", [("v", gty(t))], UNIT, Block([Let(gp, Var("v")), Do(Call("string_println", concat(parts)))], Unit))
+    elif variant == "quiet":
+        # the value of the match is discarded and only its catch-all rows have an effect
+        p.fn("f", [("v", gty(t))], UNIT, Block([Do(Match(Var("v"), arms)), Do(Call("string_println", Str("after")))], Unit))
     elif variant == "loop":
         # the match is the last thing in a loop body: its value is not used, only its effects (statement position)
         p.fn("f", [("v", gty(t))], UNIT, Block([
@@ -246,6 +252,15 @@ def matrix_program(m, idx, variant="unit"):
         p.fn("f", [("v", gty(t))], STRING if variant == "string" else UNIT, Match(Var("v"), arms))
     p.fn("main", [], UNIT, Block(calls, Unit))
     return p, "".join(l + "\n" for l in exp), ("failed" if failed else "ok")
+
+
+def has_var(p):
+    return p["k"] == "v" or any(has_var(q) for q in p.get("ps", []))
+
+
+def row_matches_first(m, c):
+    """does the first row of matrix m match the value of case c?  (MatchSem reported the first matching arm of the full matrix)"""
+    return c["res"]["arm"] == 1
 
 
 def irrefutable(p):
@@ -300,9 +315,18 @@ def programs(tier):
             prog, exp, st = matrix_program(m, i, "string")
             out.append({"prog": prog, "family": "c06:match-value", "ident": f"c06:match-value:{shape}:#{i}", "matrix": m,
                         "matchsem_out": "".join(l + "\n" for l in exp.splitlines()), "matchsem_status": st})
+        if any(irrefutable(r) for r in m["rows"]) and not irrefutable(m["rows"][0]) and i % 3 == 1:
+            prog, exp, st = matrix_program(m, i, "quiet")
+            out.append({"prog": prog, "family": "c06:match-discarded-quiet-arms", "ident": f"c06:match-discarded-quiet-arms:{shape}:#{i}", "matrix": m, "matchsem_out": None, "matchsem_status": None})
         if i % 4 == 1:
             prog, exp, st = matrix_program(m, i, "loop")
             out.append({"prog": prog, "family": "c06:match-in-loop", "ident": f"c06:match-in-loop:{shape}:#{i}", "matrix": m, "matchsem_out": exp, "matchsem_status": st})
+        if not irrefutable(m["rows"][0]) and m["rows"][0]["k"] in ("t", "st", "c") and i % 2 == 0:
+            # a refutable pattern in a let: the values it matches go on, the first value it does not match ends the program there
+            m1 = dict(m, rows=m["rows"][:1], cases=[dict(c, res=dict(c["res"], arm=1 if row_matches_first(m, c) else 0)) for c in m["cases"]])
+            prog, exp, st = matrix_program(m1, i, "let")
+            binds = "binds" if has_var(m["rows"][0]) else "binds-nothing"
+            out.append({"prog": prog, "family": "c06:let-refutable", "ident": f"c06:let-refutable:{binds}:{m['ty']}:#{i}", "matrix": m1, "matchsem_out": None, "matchsem_status": None})
         if irrefutable(m["rows"][0]) and m["rows"][0]["k"] in ("t", "st"):
             m1 = dict(m, rows=m["rows"][:1], cases=[dict(c, res=dict(c["res"])) for c in m["cases"]])
             prog, exp, st = matrix_program(m1, i, "let")
